@@ -169,7 +169,7 @@ def run(ctx, which):
     if dropped:
         ctx.model_drift("%d instances predicted to compile did not (outside the domain): %s" % (
             len(dropped), sorted({(d[0]["T"], d[0]["N"], d[0]["D"]) for d in dropped})[:5]))
-    if len(inst_done) < 0.6 * len([c for c in cases if c["compiles"]]):
+    if len(inst_done) < 0.6 * len([c for c in cases if c["compiles"]]) and not ctx.violations:
         raise core.ToolError("too few instances ran: %d" % len(inst_done))
     # every comparator mismatch must have been logged (cap 40 per instance) -> adjudicated by TLC
     nval, bad = ctx.tlc_batch_validate("Trace_Conv.tla", recs, name="conv")
@@ -197,6 +197,10 @@ def run(ctx, which):
     for r in mism:
         k = (r["T"], str(wire_to_int(r["N"])), str(wire_to_int(r["D"])), str(wire_to_int(r["x"])), r["cfg"])
         if k not in badkeys:
+            if r.get("ubchk"):
+                ctx.violation({"T": k[0], "N": k[1], "D": k[2], "x": k[3], "call": "checkers-ub"},
+                              "the same-rep checkers executed undefined behaviour and answered inconsistently for %s x=%s factor %s/%s" % (k[0], k[3], k[1], k[2]), detail=r)
+                continue
             raise core.ToolError("comparator mismatch not confirmed by TLC (comparator bug?): %s" % json.dumps(r))
     if which == "C04":
         float_clause(ctx, cfgs)
